@@ -210,6 +210,32 @@ def run_deep(rep, cases):
             rep.nontrivial.add('deep' + json.dumps([c['v'], c['u1'], c['u2']]))
 
 
+def run_reduce(rep, cases):
+    def reducer(value, path, node):
+        # sum the leaves of the subtree
+        if not node.inner and isinstance(node.value, int):
+            return value + node.value
+        return value
+    for c in cases:
+        rep.evaluations += 1
+        rc = c['rc']
+        st = make({'src': {'x': {'_default': rc['leaves']['x']}, 'y': {'_default': rc['leaves']['y']}},
+                   'tot': {'_default': rc['v'], '_updater': rc['f']}})
+        upd = {'tot': {'_reduce': {'from': ('..', 'src'), 'initial': rc['initial'],
+                                   'reducer': reducer}}}
+        try:
+            st.apply_update(upd)
+        except Exception as e:
+            viol(rep, 'reduce', c, 'raised %r' % (e,))
+            continue
+        got = st.get_value()
+        if got['tot'] != c['out'] or got['src'] != rc['leaves']:
+            viol(rep, 'reduce', c, '_reduce leaves %r, specification says tot=%r and the source '
+                 'untouched' % (got, c['out']))
+        if rc['leaves']['x'] + rc['leaves']['y'] > 0:
+            rep.nontrivial.add('reduce' + json.dumps(c, sort_keys=True))
+
+
 def run_dict_value(rep, cases):
     for c in cases:
         rep.evaluations += 1
@@ -285,6 +311,7 @@ def run(rep, tier, scratch):
     run_batch(rep, t['batch'])
     run_merge(rep, t['merge'])
     run_dict_value(rep, t['dict_value'])
+    run_reduce(rep, t['reduce'])
     deep = t['deep'] if tier == 'thorough' else t['deep'][::9]
     run_deep(rep, deep)
     run_units(rep, t['units'])
